@@ -453,6 +453,33 @@ static void run(void) {
     wrap_rings(0, 14, 1);
     wrap_rings(1, 30, VF_T(2, 1));
     wrap_rings(2, 50, VF_T(60, 6));
+    /* disks that reach the antipode and cover the whole globe: every origin of res 0 and (quick: every second one) of res 1,
+     * a sample of res 2.  A search that prunes directions is right on the plane and can still miss the last cell on the sphere. */
+    {
+        ref_child_iter it;
+        int zero[15] = {0};
+        int64_t n1 = 0;
+        for (int bc = 0; bc < 122; bc++) {
+            H3Index b0 = vf_make_cell(0, bc, zero);
+            if (VF_MINE(idx++)) {
+                case_disk(b0, 10 + bc % 3);
+                case_disk(b0, 13);
+                vf_add("disk.covers_globe", 2);
+            }
+            for (ref_child_iter_init(&it, b0, 1); !it.done; ref_child_iter_next(&it), n1++) {
+                if ((!VF.thorough && (n1 & 1) && !ref_is_pentagon(it.h)) || !VF_MINE(idx++)) continue;
+                case_disk(it.h, 26 + (int)(n1 % 4));
+                vf_add("disk.covers_globe", 1);
+            }
+        }
+        int n2 = VF_T(16, 160);
+        for (int i = 0; i < n2; i++)
+            if (VF_MINE(idx++)) {
+                H3Index h = i < 12 ? vf_make_cell(2, REF_PENT_BC[i], zero) : vf_rand_cell(&r, 2);
+                case_disk(h, 66 + (int)vf_below(&r, 6));
+                vf_add("disk.covers_globe", 1);
+            }
+    }
     /* disks that wrap the globe at the coarsest resolutions */
     static const int KW[3] = {12, 25, 45};
     for (int res = 0; res <= 2; res++) {
